@@ -823,6 +823,8 @@ def eq_term(p: Path, a: Any, b: Any) -> Any:
                 return True
             if getattr(a.cls, "__eq__", None) is object.__eq__ and getattr(b.cls, "__eq__", None) is object.__eq__:
                 return False  # identity semantics (distinct symbolic objects are distinct heap objects)
+            if getattr(getattr(a.cls, "__eq__", None), "__module__", "").startswith("specs"):
+                return False  # spec-level abstract classes define == as identity
             raise Unsupported("== between distinct symbolic objects (needs __eq__ contract)")
         so = a if isinstance(a, SObj) else b
         if getattr(so.cls, "__eq__", None) is object.__eq__:
